@@ -183,6 +183,63 @@ def _replay(job):
             "fl_channels": 2 if two else 3}, out
 
 
+RO_CFG = ("INIT Init\nNEXT Next\nCONSTRAINT Emit\nINVARIANT HistoryFree\n"
+          "CONSTANTS\n Feats <- MCFeats\n Group <- MCGroup\n MaxReads = {d}\n"
+          "CHECK_DEADLOCK FALSE\n")
+RO_FEATS = ("bright_avg", "bright_sd", "bright_perc_10", "bright_perc_90")
+
+
+def _ro_files(root, provided):
+    """a file with image+mask and a basin that offers `provided` with its own
+    (token) values"""
+    from .. import gen
+    from dclab.rtdc_dataset import RTDCWriter
+    tag = "_".join(sorted(provided)) or "none"
+    d = root / ("ro_" + tag)
+    if not d.exists():
+        d.mkdir()
+        ids = list(range(1, 7))
+        gen.write_rtdc(d / "basin.rtdc", ids,
+                       feats=("deform",) + tuple(sorted(provided)))
+        gen.write_rtdc(d / "main.rtdc", ids,
+                       feats=("deform", "area_um", "image", "image_bg", "mask"))
+        if provided:
+            with RTDCWriter(d / "main.rtdc", mode="append") as hw:
+                hw.store_basin("twin", "file", "hdf5",
+                               [str(d / "basin.rtdc")],
+                               basin_feats=sorted(provided))
+    return d / "main.rtdc"
+
+
+def _ro_replay(job):
+    import dclab
+    from .. import gen
+    case, root = job
+    provided = sorted(case["provided"])
+    path = _ro_files(root, provided)
+    out = []
+    with dclab.new_dataset(path) as ds:
+        for i, rd in enumerate(case["reads"]):
+            f = rd["f"]
+            got = np.array(ds[f][:], dtype=float)
+            with dclab.new_dataset(path) as fr:
+                want = np.array(fr[f][:], dtype=float)
+            if rd["from"] == "basin" and not np.array_equal(
+                    want, gen.scalar(f, list(range(1, 7)))):
+                out.append(("a fresh dataset does not take a basin-provided "
+                            "feature from the basin", f, i))
+            if not np.array_equal(got, want, equal_nan=True):
+                before = [r["f"] for r in case["reads"][:i]]
+                out.append(("%s feature differs from a fresh dataset after "
+                            "another feature of the same recipe was read" % (
+                                "basin-provided" if rd["from"] == "basin"
+                                else "computed"),
+                            "%s after reading %s (basin offers %s)" % (
+                                f, before, provided), i))
+    return {"provided": provided, "reads": [r["f"] for r in case["reads"]]}, \
+        out
+
+
 def main(tier, seed, replay=None):
     import_dclab()
     ev = evidence.Evidence(PID, tier, seed)
@@ -198,8 +255,13 @@ def main(tier, seed, replay=None):
                "with whether the read succeeds, and scenario C with the same "
                "state without temp. non-trivial = at least one key of the "
                "emodulus scenarios present.")
-    ev.assumptions = ["in-memory datasets; hierarchy children are covered by "
-                      "C04 (root config change)"]
+    ev.rule += (" Plus ReadOrderSpec: file-based dataset with image and mask "
+                "and a basin offering any subset of the brightness features "
+                "with its own values x every sequence of reads; every read "
+                "equals the read of a freshly opened dataset.")
+    ev.assumptions = ["in-memory datasets for the configuration histories; "
+                      "hierarchy children are covered by C04 (root config "
+                      "change)"]
     q = tier == "quick"
     d = 2 if q else 3
     scratch = tlc.scratch_dir("vp_c06_")
@@ -215,6 +277,25 @@ def main(tier, seed, replay=None):
     for case, viols in par.pmap(_replay, jobs, chunk=100):
         ev.traces += 1
         ev.case(case, nontrivial=case["init"] != "")
+        for sig, detail, i in viols:
+            rep.violation(sig, detail, case, size=i)
+    # reads in between: computed vs. basin-provided features of one recipe
+    res3 = tlc.run("ReadOrderSpec", RO_CFG.format(d=2 if q else 3),
+                   workers=4, timeout=600)
+    if not res3.ok:
+        raise tlc.TLCError("ReadOrderSpec: %s" % res3.violated)
+    ev.add_tlc("ReadOrderSpec read histories", res3)
+    seen, ro = set(), []
+    for c in res3.tagged("H"):
+        if str(c) not in seen:
+            seen.add(str(c))
+            ro.append(c)
+    for p in sorted({tuple(sorted(c["provided"])) for c in ro}):
+        _ro_files(scratch, p)             # build before forking
+    for case, viols in par.pmap(_ro_replay, [(c, scratch) for c in ro],
+                                chunk=16):
+        ev.traces += 1
+        ev.case(case, nontrivial=bool(case["provided"]))
         for sig, detail, i in viols:
             rep.violation(sig, detail, case, size=i)
     import shutil
